@@ -203,6 +203,15 @@ impl Pool {
         Self::new_with_conn(conn)
     }
 
+    /// Verification hook: open (and migrate) the lease database at a caller-chosen path.
+    #[cfg(feature = "verif-hooks")]
+    pub fn verif_open(path: &std::path::Path) -> Result<Pool, Error> {
+        let conn = rusqlite::Connection::open(path)
+            .map_err(|e| Error::emit("Creating database at verification path", &e))?;
+
+        Self::new_with_conn(conn)
+    }
+
     pub fn new() -> Result<Pool, Error> {
         let conn = rusqlite::Connection::open("/var/lib/erbium/leases.sqlite")
             .map_err(|e| Error::emit("Creating database /var/lib/erbium/leases.sqlite", &e))?;
